@@ -643,6 +643,7 @@ func (m *RpcServer) ControlEnvironment(cxt context.Context, req *pb.ControlEnvir
 			log.WithField("partition", env.Id()).Warnf("could not complete requested GO_ERROR transition, forcing move to ERROR: %s", err.Error())
 			verifhook.Point("api.force.error", "env", env.Id().String(), "from", env.Sm.Current())
 			env.ForceState("ERROR")
+			verifhook.Point("api.force.done", "env", env.Id().String(), "st", env.Sm.Current())
 		}
 	}
 
